@@ -119,6 +119,8 @@ class CallMixin:
             r = self.dunder_call(node, '__iter__' if name == 'iter' else '__reversed__', args[0], [], st)
             if r is not None:
                 return r
+        if name == 'getattr' and len(args) == 2 and args[1].is_const and isinstance(args[1].val, str):
+            return self.get_attr(args[0], args[1].val, node, st)
         if name in ('open', 'getattr', 'setattr', 'delattr', 'hasattr', 'print'):
             ev = self.emit(st, 'EXT', node, name='builtins.' + name, args=args, kwargs=kwargs)
             if name == 'getattr' and len(args) >= 2 and args[1].is_const and isinstance(args[1].val, str):
